@@ -65,6 +65,77 @@ func VerifC10_Devmod() {
 	verif.Reached("end")
 }
 
+// a sequence of module-list chunks: the second chunk arrives when part of the list
+// is already filled (the owner then re-bases its start index)
+func VerifC10_DevmodChunkSequence() {
+	verif.NoPanic()
+	verif.Bound("C10 devmod sequence", "nummodules in {1,2,3}; first chunk in range (start 0..1, 1..2 one-byte names), second chunk with Start in {-1,0,1,2,3}, Len in {0,1,2,3} and Len one-byte names (or one name fewer)")
+	d := &devmodOwnerModule{}
+	n := 1 + verif.Choose("nummodules", 3)
+	nb, err := cbor.Marshal(n)
+	verif.Assert(err == nil, "encode")
+	verif.Assert(d.HandleInfo(context.Background(), "nummodules", bytes.NewReader(nb)) == nil, "count accepted")
+	mk := func(tag string, start, ln, names int) []byte {
+		chunk := serviceinfo.DevmodModulesChunk{Start: start, Len: ln}
+		for i := 0; i < names; i++ {
+			chunk.Modules = append(chunk.Modules, verif.String("name"+tag, 1))
+		}
+		cb, err := cbor.Marshal(chunk)
+		verif.Assert(err == nil, "encode chunk")
+		return cb
+	}
+	k1 := 1 + verif.Choose("names1", 2)
+	_ = d.HandleInfo(context.Background(), "modules", bytes.NewReader(mk("1", verif.Choose("start1", 2), k1, k1)))
+	l2 := verif.Choose("len2", 4)
+	names2 := l2
+	if l2 > 0 && verif.Choose("short2", 2) == 1 {
+		names2 = l2 - 1
+	}
+	err = d.HandleInfo(context.Background(), "modules", bytes.NewReader(mk("2", verif.Choose("start2", 5)-1, l2, names2)))
+	if err == nil {
+		verif.Assert(len(d.Modules) == n, "the module list keeps the announced length")
+	}
+	verif.Reached("end")
+}
+
+// one DeviceServiceInfo message with many entries whose key changes every entry:
+// the owner service answers (it must not block on its own unchunking pipe)
+func VerifC10_ManyServiceInfoKeys() {
+	verif.NoPanic()
+	verif.Bound("C10 many keys", "TO2.DeviceServiceInfo with n entries alternating devmod:active / devmod:os, n in {0,1,2,999,1000,1001,1002} (quick: {0,1,2,1001}); values symbolic in the first two entries; session after DeviceServiceInfoReady")
+	verif.SetGhost("clock-concrete", 1)
+	ns := []int{0, 1, 2, 1001}
+	if verif.Tier() > 0 {
+		ns = []int{0, 1, 2, 999, 1000, 1001, 1002}
+	}
+	n := ns[verif.Choose("n", len(ns))]
+	c := vC08Setup()
+	s := c.w.newSession("TA")
+	c.fill(s, pTO2Ready, "A")
+	var kvs []*serviceinfo.KV
+	for i := 0; i < n; i++ {
+		if i%2 == 0 {
+			v := byte(0xf5)
+			if i < 2 && verif.Bool("active") {
+				v = 0xf4
+			}
+			kvs = append(kvs, &serviceinfo.KV{Key: "devmod:active", Val: []byte{v}})
+		} else {
+			val := []byte{0x61, 'o'}
+			if i < 2 {
+				val = []byte{0x61, verif.U8("os") & 0x7f}
+			}
+			kvs = append(kvs, &serviceinfo.KV{Key: "devmod:os", Val: val})
+		}
+	}
+	body, err := cbor.Marshal(deviceServiceInfo{IsMoreServiceInfo: true, ServiceInfo: kvs})
+	verif.Assert(err == nil, "encode")
+	srv := c.h.TO2Responder.(*TO2Server)
+	rt, _ := srv.Respond(c.w.TokenContext(context.Background(), "TA"), protocol.TO2DeviceServiceInfoMsgType, bytes.NewReader(body))
+	verif.Assert(rt == protocol.TO2OwnerServiceInfoMsgType || rt == protocol.ErrorMsgType, "the owner service answers with OwnerServiceInfo or an error message")
+	verif.Reached("end")
+}
+
 // an error message naming a protocol the handler does not serve
 func VerifC10_ErrorMsgMissingResponder() {
 	verif.NoPanic()
